@@ -28,4 +28,9 @@ void __cxa_guard_release(char*g){ *g = 1; }
 void __cxa_guard_abort(char*g){ }
 int __cxa_atexit(char*f, char*a, char*d){ return 0; }
 void verif_sstream_str_used(void){ }
-unsigned long strlen(const char*);
+
+/* libc string functions as explicit loops (bounded by --unwind like everything else) */
+unsigned long strlen(const char *s){ unsigned long n = 0; while (s[n]) n++; return n; }
+int memcmp(const void *a, const void *b, size_t n){ const unsigned char *x = a, *y = b; for (size_t i = 0; i < n; i++) { if (x[i] != y[i]) return x[i] < y[i] ? -1 : 1; } return 0; }
+int strcmp(const char *a, const char *b){ size_t i = 0; while (a[i] && a[i] == b[i]) i++; return (unsigned char) a[i] - (unsigned char) b[i]; }
+char* memchr(const char *s, int c, size_t n){ for (size_t i = 0; i < n; i++) if ((unsigned char) s[i] == (unsigned char) c) return (char*) s + i; return 0; }
